@@ -44,6 +44,8 @@ struct Inner {
     stop: bool,
     deadlock: bool,
     max_live: usize,
+    /// pooled-thread indices in use by live child tasks (allocation order is the simulator's, not the OS's)
+    thread_slots: BTreeSet<usize>,
 }
 
 pub struct Sched {
@@ -105,6 +107,7 @@ impl Sched {
                 stop: false,
                 deadlock: false,
                 max_live: n_top,
+                thread_slots: BTreeSet::new(),
             }),
             cv: Condvar::new(),
         })
@@ -276,6 +279,21 @@ impl Sched {
         }
         g.trace.u64(0x3000_0000_0000_0000 | id as u64);
         id
+    }
+
+    /// lowest free pooled-thread index for a child task (indices below `base` belong to top-level tasks)
+    pub fn alloc_thread_slot(&self, base: usize) -> usize {
+        let mut g = self.inner.lock().unwrap();
+        let mut i = base;
+        while g.thread_slots.contains(&i) {
+            i += 1;
+        }
+        g.thread_slots.insert(i);
+        i
+    }
+
+    pub fn free_thread_slot(&self, i: usize) {
+        self.inner.lock().unwrap().thread_slots.remove(&i);
     }
 
     pub fn live_tasks(&self) -> usize {
